@@ -472,7 +472,7 @@ Proof.
     + intros sv0 H0. apply maybe_delete_session_KInv. eapply KInv_le; [| |exact H0]; [apply sess_le_refl|reflexivity].
   - destruct (update_last_cmid _ _ _ _ sv) as [sv1|] eqn:Hu; cbn; intros [= <-]; [|now apply Hmono].
     apply Hmono. now destruct (update_last_cmid_KInv Z hi _ _ _ _ _ _ HK Hu).
-  - destruct parsed; cbn; intros [= <-]; apply Hmono; [|exact HK].
+  - destruct (config_in_force _ _ _); cbn; intros [= <-]; apply Hmono; [|exact HK].
     eapply KInv_le; [| |exact HK]; [apply sess_le_refl|reflexivity].
 Qed.
 
